@@ -16,7 +16,7 @@ from . import bashrun, gen
 LITS = ['a', 'ab', 'b', 'cd', '--x', '-y', 'foo', 'abc']
 NASTY_LITS = ['*', 'a*', '?b', 'x[y', 'q]']
 CANDS = ['ca', 'cb', 'cab', 'x1', 'a', 'ab', 'v', 'vw']
-NASTY_CANDS = ['my file', 'a\tdesc', 'cab\tother', '-n', '-e', '', 'x*', 'q?', ' lead', 'ca b\tc', '12', '7']
+NASTY_CANDS = ['my file', 'a\tdesc', 'cab\tother', '-n', '-e', '', 'x*', 'q?', ' lead', 'ca b\tc', '12', '7', 'two\tsecond item\tthird', 't2\t\tx']
 PREFIXES = ['--k=', 'p:', '-o', 'k=']
 VALUES = ['v', 'w', 'xy', 'q', 'vw', 'vwx', 'x', 'a', 'ab', 'abc']
 
